@@ -10,7 +10,7 @@ from build import BUILD, VERIF, HarnessError, Lock, file_hash, nm_undefined, par
 B_WRAP = ["malloc", "realloc", "free", "calloc", "fopen", "freopen", "exit", "abort", "__assert_fail",
           "getenv", "setlocale", "time", "clock_gettime", "rand", "random", "getpid",
           "atexit", "fileno", "read", "write", "isatty", "remove", "unlink", "rename", "open", "close", "lseek", "fstat", "stat",
-          "fdopen", "dup", "_exit", "ftruncate", "getrlimit", "getcwd", "umask", "gettimeofday", "clock", "getuid", "getppid", "srand", "srandom", "sysconf"]
+          "fdopen", "dup", "_exit", "_Exit", "ftruncate", "getrlimit", "getcwd", "umask", "gettimeofday", "clock", "getuid", "getppid", "srand", "srandom", "sysconf"]
 B_PURE = {"fclose", "getc", "ungetc", "ferror", "fflush", "stdin", "fputc", "fputs", "fwrite", "printf", "putc", "putchar",
           "puts", "stdout", "fprintf", "vfprintf", "perror", "stderr", "memcmp", "memcpy", "memset", "memmove", "strchr",
           "strcmp", "strlen", "strpbrk", "strrchr", "strncmp", "strcpy", "strncpy", "strcat", "strstr", "strspn", "strcspn",
